@@ -199,8 +199,9 @@ class WebSocketApp:
         Close websocket connection.
         """
         self.keep_running = False
-        if self.sock:
-            self.sock.close(**kwargs)
+        sock = self.sock
+        if sock:
+            sock.close(**kwargs)
             self.sock = None
 
     def _start_ping_thread(self) -> None:
@@ -511,6 +512,11 @@ class WebSocketApp:
             ],
             reconnecting: bool = False,
         ) -> bool:
+            if not self.keep_running and isinstance(e, Exception):
+                # close() has been called (possibly from another thread): whatever
+                # the loop tripped over is a consequence of that, not an error
+                teardown()
+                return
             self.has_errored = True
             self._stop_ping_thread()
             if not reconnecting:
